@@ -45,7 +45,8 @@ Print Assumptions FactsTypes_bsontype_tags.
 Theorem FactsTypes_producers_agree_with_model : forall t, (t < 256)%N ->
   extract_arity t = model_arity t /\ metric_arity t = model_arity t /\ hash_arity t = model_arity t.
 Proof.
-  intros t Ht. repeat split; apply agrees_with_model_spec; try assumption; vm_compute; reflexivity.
+  intros t Ht.
+  split; [|split]; apply agrees_with_model_spec; try exact Ht; vm_compute; reflexivity.
 Qed.
 Print Assumptions FactsTypes_producers_agree_with_model.
 
@@ -91,7 +92,10 @@ Theorem FactsTypes_recorded_types :
   types_ok metric_arity metric_types = true /\ types_cover metric_table metric_types = true /\
   forall v, is_container (tag v) = false ->
     map (fun m => mtype_tag (fst m)) (flatten v) = repeat (tag v) (length (flatten v)).
-Proof. repeat split; try (vm_compute; reflexivity). exact flatten_types_own. Qed.
+Proof.
+  split; [vm_compute; reflexivity|]. split; [vm_compute; reflexivity|].
+  split; [vm_compute; reflexivity|]. split; [vm_compute; reflexivity|]. exact flatten_types_own.
+Qed.
 Print Assumptions FactsTypes_recorded_types.
 
 (* 4. (b) the consumers.
@@ -112,7 +116,10 @@ Theorem FactsTypes_consumers_agree :
   per_metric_ok flat_out false flat_table flat_default = true /\
   per_metric_ok flat_out true series_table series_default = true /\
   per_metric_ok (fun _ => None) true csv_table csv_default = true.
-Proof. repeat split; vm_compute; reflexivity. Qed.
+Proof.
+  split; [vm_compute; reflexivity|]. split; [vm_compute; reflexivity|].
+  split; [vm_compute; reflexivity|]. split; vm_compute; reflexivity.
+Qed.
 Print Assumptions FactsTypes_consumers_agree.
 
 (* ... in particular the slots consumed per value are the metrics produced per value, on every
